@@ -31,6 +31,7 @@ import (
 type liveDelegate struct {
 	inner     scan.RequestGenerator
 	failOn    map[int]bool
+	failFrom  int // > 0: every pass from this one on fails to start (e.g. the target file was removed)
 	perReqDelay time.Duration
 	mu        sync.Mutex
 	callT     []time.Time // taken on entry (>= true call time)
@@ -42,9 +43,11 @@ func (d *liveDelegate) GenerateRequests(ctx context.Context, r *scan.Range) (<-c
 	now := time.Now()
 	pass := int(atomic.AddInt32(&d.calls, 1))
 	d.mu.Lock()
-	d.callT = append(d.callT, now)
+	if len(d.callT) < 100000 {
+		d.callT = append(d.callT, now)
+	}
 	d.mu.Unlock()
-	if d.failOn[pass] {
+	if d.failOn[pass] || d.failFrom > 0 && pass >= d.failFrom {
 		return nil, errors.New("scripted: pass failed to start")
 	}
 	in, err := d.inner.GenerateRequests(ctx, r)
@@ -86,6 +89,7 @@ type c19case struct {
 	CancelAfter int    `json:"cancel_after_requests"` // -1: cancel after MinPasses complete passes, between passes
 	MinPasses   int    `json:"passes_to_observe"`
 	FailPass    int    `json:"delegate_fails_on_pass"` // 0 none
+	FailForever bool   `json:"and_on_every_later_pass,omitempty"`
 	RandSeed    int64  `json:"rand_seed"`
 }
 
@@ -119,6 +123,9 @@ func c19live(run *vlab.Run, c c19case) {
 	d := &liveDelegate{inner: inner, failOn: map[int]bool{}, closeT: map[int]time.Time{}, perReqDelay: time.Duration(c.PerReqUs) * time.Microsecond}
 	if c.FailPass > 0 {
 		d.failOn[c.FailPass] = true
+		if c.FailForever {
+			d.failFrom = c.FailPass
+		}
 	}
 	interval := time.Duration(c.IntervalMs) * time.Millisecond
 	live := scan.NewLiveRequestGenerator(d, interval)
@@ -200,6 +207,10 @@ func c19live(run *vlab.Run, c c19case) {
 		}
 	})
 	run.Eval(1)
+	if n := int(atomic.LoadInt32(&d.calls)); !finished && c.FailPass > 0 && n > c.FailPass+50 {
+		run.Violation("busy-loop-after-failed-pass", fmt.Sprintf("%d delegate calls after pass %d failed to start, and the stream did not end after cancellation: %+v", n-c.FailPass, c.FailPass, c), c)
+		return
+	}
 	if !finished {
 		if parked {
 			run.Violation("stream-not-closed", fmt.Sprintf("the live request stream did not end after cancellation; goroutines parked: %+v", c), map[string]interface{}{"case": c, "stacks": dump})
@@ -214,7 +225,10 @@ func c19live(run *vlab.Run, c c19case) {
 	// ---- per-pass multisets: every pass that is complete (a later pass was started or the cancel came between passes)
 	d.mu.Lock()
 	defer d.mu.Unlock()
-	ncalls := len(d.callT)
+	ncalls := int(atomic.LoadInt32(&d.calls))
+	if ncalls > len(d.callT) {
+		ncalls = len(d.callT)
+	}
 	complete := 0
 	for p := 1; p <= ncalls; p++ {
 		got := passes[p]
@@ -260,7 +274,7 @@ func c19live(run *vlab.Run, c c19case) {
 		run.Max("max_gap_overshoot_us", (gap - interval).Microseconds())
 	}
 	// ---- no busy loop
-	if c.FailPass > 0 && ncalls > c.FailPass+50 {
+	if c.FailPass > 0 && int(atomic.LoadInt32(&d.calls)) > c.FailPass+50 {
 		run.Violation("busy-loop-after-failed-pass", fmt.Sprintf("%d delegate calls after pass %d failed to start: %+v", ncalls-c.FailPass, c.FailPass, c), c)
 	}
 	if afterCancel > cap1(perPass) {
@@ -332,6 +346,7 @@ func TestVerifC19Live(t *testing.T) {
 	for _, fp := range []int{1, 2, 3} {
 		for _, iv := range []int{1, 20} {
 			cases = append(cases, c19case{Subnet: "10.4.0.0/29", IntervalMs: iv, CancelAfter: -1, MinPasses: 4, FailPass: fp, RandSeed: int64(fp)})
+			cases = append(cases, c19case{Subnet: "10.4.0.0/29", IntervalMs: iv, CancelAfter: -1, MinPasses: 4, FailPass: fp, FailForever: true, RandSeed: int64(fp)})
 		}
 	}
 	for i, c := range cases {
